@@ -273,13 +273,15 @@ class GaussianBackend(BaseGaussian):
         r = self.circuit.smean()
 
         if modes is None:
-            modes = list(range(len(self.get_modes())))
+            modes = self.get_modes()
         elif isinstance(modes, int):
             modes = [modes]
 
-        # ``modes`` are positions in the list of active modes; after a deletion the data
-        # of the k-th active mode does not sit in the k-th stored row any more
-        rows = array(self.get_modes(), dtype=int)[modes]
+        # ``modes`` are subsystem indices (the rows of a deleted mode stay in place)
+        active = self.get_modes()
+        if any(i not in active for i in modes):
+            raise ValueError("The specified modes are not valid.")
+        rows = array(modes, dtype=int)
         listmodes = list(concatenate((2 * rows, 2 * rows + 1)))
         covmat = empty((2 * len(modes), 2 * len(modes)))
         means = r[listmodes]
